@@ -169,7 +169,25 @@ def make_app(cookie_version):
             RAN.append("issue")
             self.write(self.xsrf_token)
 
-    return web.Application([("/act", Act), ("/stream", StreamAct), ("/issue", Issue)], xsrf_cookies=True,
+    class Prep(web.RequestHandler):
+        """answers in prepare() (an auth / vote-counting hook): the XSRF gate comes before any handler code"""
+        def prepare(self):
+            RAN.append(self.request.method)
+            self.finish("ran")
+
+        def _go(self):
+            pass
+        get = head = options = post = put = delete = patch = _go
+
+    class Form(web.RequestHandler):
+        """re-renders its form, i.e. issues a token for the cookie that was presented"""
+        def _go(self):
+            RAN.append(self.request.method)
+            self.write("ran" + self.xsrf_form_html())
+        get = head = options = post = put = delete = patch = _go
+
+    return web.Application([("/act", Act), ("/stream", StreamAct), ("/issue", Issue), ("/prep", Prep), ("/form", Form)],
+                           xsrf_cookies=True,
                            xsrf_cookie_version=cookie_version)
 
 
@@ -202,8 +220,21 @@ def pct(s):
     return "".join("%%%02X" % c for c in s.encode("utf-8")).encode("ascii")
 
 
+ODD_COOKIES = b"prefs[lang]=en; flag; user@site=1; "
+
+
+def route(fam):
+    """family suffix -> request path (and '@oddcookie': cookies with names http.cookies refuses come before _xsrf)"""
+    for suf, path in (("@stream", "/stream"), ("@prep", "/prep"), ("@form", "/form"), ("@oddcookie", "/act+odd")):
+        if fam.endswith(suf):
+            return path
+    return "/act"
+
+
 def build_request(method, cookie, tokens, path="/act"):
     """cookie: str | None (no Cookie header).  tokens: list of (placement, str)."""
+    odd = path.endswith("+odd")
+    path = path[:-4] if odd else path
     headers = [b"Host: h"]
     body = b""
     query = b""
@@ -219,7 +250,7 @@ def build_request(method, cookie, tokens, path="/act"):
         else:
             headers.append(latin(pl) + b": " + latin(t))
     if cookie is not None:
-        headers.append(b"Cookie: _xsrf=" + latin(cookie))
+        headers.append(b"Cookie: " + (ODD_COOKIES if odd else b"") + b"_xsrf=" + latin(cookie))
     if method not in SAFE or body:
         headers.append(b"Content-Length: %d" % len(body))
     return (latin(method) + b" " + latin(path) + query + b" HTTP/1.1\r\n"
@@ -520,6 +551,16 @@ class C24(Check):
                         for pl in ("X-XSRFToken", "query"):
                             for tk in (good_t, bad_t, "zz", ""):
                                 yield (ver, "misc:token@stream", method, ck, [(pl, tk)], ("ts", method, pl))
+            # a handler that answers in prepare(), one that re-renders its form (legacy non-hex version-1 cookies included),
+            # and a Cookie header in which cookies with refused names precede _xsrf
+            for suf in ("@prep", "@form", "@oddcookie"):
+                for ver in (1, 2):
+                    for method in ("POST", "PUT", "GET"):
+                        for ck in (None, good_c, "xoxo", "g"):
+                            yield (ver, "misc:no-token" + suf, method, ck, [], ("nt" + suf, method))
+                            for pl in ("X-XSRFToken", "form"):
+                                for tk in (good_t, bad_t, "zz", "", "xoxo", "g"):
+                                    yield (ver, "misc:token" + suf, method, ck, [(pl, tk)], ("t" + suf, method, pl))
             weird = ["2|00000000|00|1", "2|00000000|00|+1", "2|00000000|00| 1", "2|00000000|00|1_0",
                      "2|00000000|00|-1", "2|00000000|00|", "2|00000000|00|1|", "2|00000000|00",
                      "2|000000|00|1", "2|0000000000|00|1", "2|0000000g|00|1", "2|00000000|0|1",
@@ -547,7 +588,7 @@ class C24(Check):
         for i, (ver, f, method, ck, toks, nt) in enumerate(self.items(fam, tier, issued)):
             if i % self.NCH != chunk:
                 continue
-            res = run_request(apps[ver], method, ck, toks, "/stream" if f.endswith("@stream") else "/act")
+            res = run_request(apps[ver], method, ck, toks, route(f))
             st.ev()
             if len(st.samples) < 1 and i > 40:
                 st.sample({"request": build_request(method, ck, toks), "status": res["status"],
@@ -561,8 +602,7 @@ class C24(Check):
             return "issuance re-run; problems:\n" + "\n".join(st.lines or ["(none)"])
         toks = [tuple(t) for t in case["tokens"]]
         app = make_app(case["app_version"])
-        res = run_request(app, case["method"], case["cookie"], toks,
-                          "/stream" if case.get("family", "").endswith("@stream") else "/act")
+        res = run_request(app, case["method"], case["cookie"], toks, route(case.get("family", "")))
         eff, nonutf8 = effective(toks)
         v, why = (EITHER, "undecodable-form-field") if nonutf8 else verdict(case["method"], case["cookie"], eff)
         lines = ["app         : xsrf_cookies=True, xsrf_cookie_version=%d" % case["app_version"],
